@@ -29,6 +29,7 @@ FIXES = [
     ("fixed-C13-hidden-object-abstract", "C13", "", "nulled by its type's output hooks"),
     ("fixed-C16-shared-error-path", "C16", "differs_from_fresh_engine", "own error path list"),
     ("fixed-C18-operation-without-root-type", "C18", "no root type", "has no root type in the schema"),
+    ("fixed-C03-empty-multiple-exception", "C03", "MultipleException", "empty MultipleException"),
     ("fixed-C06-subscription-root-repeated", "C06", "valid_request_refused", "single root field several times"),
 ]
 
